@@ -283,14 +283,15 @@ class _GForm(_Ghost):
         if self.fails(self.name, new_form.name):
             raise ValueError(f"no conversion {self.name} -> {new_form.name}")
         x = [sv[i] for i in range(6)]
-        return conv(self.name, new_form.name, x)
+        # (a conversion depends on the central body of the frame the state is attached to *at that moment*: mu)
+        return conv(self.name, new_form.name, x, sv.frame.name)
 
 
-def conv(a, b, x):
+def conv(a, b, x, frame="A"):
     from pyvc import sym
     if a == b:
         return list(x)
-    return [sym.uf(f"conv_{a}_{b}_{i}", *x) for i in range(6)]
+    return [sym.uf(f"conv_{a}_{b}_in_{frame}_{i}", *x) for i in range(6)]
 
 
 def transf(a, b, x):
@@ -389,10 +390,10 @@ def _sv_setup(c, orbit=False, never_fail=False):
     for a in GFORM_NAMES:
         for b in GFORM_NAMES:
             if a != b:
-                y = conv(a, b, x0)
-                z = conv(b, a, y)
+                y = conv(a, b, x0, "A")
+                z = conv(b, a, y, "A")
                 for i in range(6):
-                    c.axiom(f"C01.round_trip.{a}.{b}.{i}", z[i] == x0[i], "contract of the form conversions (property C01), assumed at this call site")
+                    c.axiom(f"C01.round_trip.{a}.{b}.{i}", z[i] == x0[i], "contract of the form conversions (property C01, same central body both ways), assumed at this call site")
     return types.SimpleNamespace(w=w, sv=sv, x0=x0, forms=forms, frames=frames, cov=cov, mans=mans, date=date, log=log, data=d["_data"], store=d["_pv_nd"].base)
 
 
@@ -476,7 +477,7 @@ def _(c):
         _eqv(c, "failed_restore.cartesian_in_new_frame", _coords(s.sv), transf("A", "B", cart))
         c.ensure("failed_restore.form_frame_consistent", s.data["form"] is s.forms["cartesian"] and s.data["frame"] is s.frames["B"])
     else:
-        _eqv(c, "done.coordinates", _coords(s.sv), conv("cartesian", "keplerian", transf("A", "B", cart)))
+        _eqv(c, "done.coordinates", _coords(s.sv), conv("cartesian", "keplerian", transf("A", "B", cart), "B"))
         c.ensure("done.form_frame", s.data["form"] is s.forms["keplerian"] and s.data["frame"] is s.frames["B"])
     if s.cov is not None:
         moved = [e for e in s.log if e[0] == "item_frame_set"]
@@ -544,9 +545,9 @@ def _(c):
     c.ensure("copy.frame", nd["_data"]["frame"] is to_frame)
     x = s.x0
     if to_frame is B:
-        x = conv("cartesian", "keplerian", transf("A", "B", conv("keplerian", "cartesian", x)))
+        x = conv("cartesian", "keplerian", transf("A", "B", conv("keplerian", "cartesian", x)), "B")
     if to_form == "spherical":
-        x = conv("keplerian", "spherical", x)
+        x = conv("keplerian", "spherical", x, "B" if to_frame is B else "A")
     _eqv(c, "copy.coordinates", _coords(new), x)
     if s.cov is not None and to_frame is B:
         c.ensure("copy.covariance_of_the_copy_follows_its_frame", nd["_data"]["cov"].__dict__["frame"] is B)
